@@ -18,15 +18,6 @@ namespace Y0
 namespace Cf
 open Fscm Relation
 
-/-- the unstarred value symbol of `x` -/
-abbrev unstar (x : Name) : Iv := ⟨x, false⟩
-
-/-- the single factual condition `X = x` -/
-abbrev condOf (x : Name) : Event := [(Var.plain x, unstar x)]
-
-/-- the outcomes after the exchange: every `Y = y` becomes `Y_x = y` -/
-def exOut (O : Event) (x : Name) : Event := O.map fun p => (atWorld p.1.name [unstar x], p.2)
-
 variable (ordf : List World → List World) (dordf kordf : List Var → List Var) (G : MG Name)
 
 /-! ### the level with no condition left -/
